@@ -12,7 +12,8 @@ def run(cmd, **kw):
 
 
 def evaluate(pid, x, extra_checks=()):
-    src = {"A": "/tmp/seedout_%s", "B": "/tmp/seedout_%s", "C": "/tmp/seedout2_%s", "D": "/tmp/seedout2_%s", "E": "/tmp/seedout3_%s", "F": "/tmp/seedout3_%s"}[x] % pid
+    src = {"A": "/tmp/seedout_%s", "B": "/tmp/seedout_%s", "C": "/tmp/seedout2_%s", "D": "/tmp/seedout2_%s", "E": "/tmp/seedout3_%s", "F": "/tmp/seedout3_%s",
+           "G": "/tmp/seedout4_%s", "H": "/tmp/seedout4_%s", "I": "/tmp/seedout5_%s", "J": "/tmp/seedout5_%s"}[x] % pid
     patch, demo = os.path.join(src, x + ".diff"), os.path.join(src, x + "_demo.py")
     if not (os.path.exists(patch) and os.path.exists(demo)):
         print(pid, x, "MISSING FILES")
@@ -24,7 +25,7 @@ def evaluate(pid, x, extra_checks=()):
         pass
     scratch = tempfile.mkdtemp(prefix="mhlseed.", dir="/dev/shm")
     copy = os.path.join(scratch, "repo")
-    meta = {"property": pid, "variant": x, "summary": notes.get("summary"), "needs_to_manifest": notes.get("needs_to_manifest")}
+    meta = {"property": pid, "variant": x, "base_commit": subprocess.check_output(["git", "-C", "/repo", "rev-parse", "--short", "HEAD"], text=True).strip(), "summary": notes.get("summary"), "needs_to_manifest": notes.get("needs_to_manifest")}
     try:
         shutil.copytree("/repo", copy, ignore=shutil.ignore_patterns(".git", "__pycache__", "*.pyc"))
         r = run(["patch", "-p1", "-s", "-d", copy, "-i", patch])
@@ -74,6 +75,12 @@ if __name__ == "__main__":
         args = args[1:]
     elif args and args[0] == "--round3":
         variants = ("E", "F")
+        args = args[1:]
+    elif args and args[0] == "--round4":
+        variants = ("G", "H")
+        args = args[1:]
+    elif args and args[0] == "--round5":
+        variants = ("I", "J")
         args = args[1:]
     for pid in args:
         for x in variants:
